@@ -195,10 +195,18 @@ fn ops_case() -> impl Strategy<Value = OpsCase> {
     })
 }
 
+/// names do not take part in a colour's identity: every named colour gets another name (a per-thread counter that every case resets, so a case stays a pure
+/// function of its input)
+thread_local! { static NAME_CTR: std::cell::Cell<u32> = const { std::cell::Cell::new(0) }; }
 fn mk_color(rgb: Rgb, named: bool) -> Color {
     let mut c = Color::new(rgb.0, rgb.1, rgb.2);
     if named {
-        c.name = Some("n".to_string());
+        let k = NAME_CTR.with(|n| {
+            let v = n.get();
+            n.set(v.wrapping_add(1));
+            v
+        });
+        c.name = Some(["n", "m", "accent", ""][k as usize % 4].to_string());
     }
     c
 }
@@ -218,6 +226,7 @@ fn earlier_changed(pal: &Palette, old: &[Rgb], except: Option<usize>) -> Option<
 }
 
 fn check_ops(c: &OpsCase) -> Verdict {
+    NAME_CTR.with(|n| n.set(0));
     let (mut pal, mut model): (Palette, Vec<Rgb>) = match &c.init {
         Init::Empty => (Palette::new(), Vec::new()),
         Init::Dos => (Palette::dos_default(), DOS16.to_vec()),
